@@ -6,6 +6,12 @@
 import NPModel.Refine.Fields
 import NPModel.Refine.Take
 import NPModel.Refine.Samples
+import NPModel.Refine.Observers
+import NPModel.Refine.Slices
+import NPModel.Refine.QueryRows
+import NPModel.Refine.SortNested
+import NPModel.Refine.DropnaNested
+import NPModel.Refine.SamplesFrame
 namespace NP.C04
 open NP
 variable {α : Type}
@@ -56,5 +62,100 @@ theorem pickle_layout_independent (c₁ c₂ : PCol α) (h₁ : c₁.WF = true) 
 /-- non-vacuity: two different layouts of the same two rows -/
 example : (Samples.s1.slice 2 1).rows = (Samples.s1.take [some 2]).rows ∧
     (Samples.s1.slice 2 1) ≠ (Samples.s1.take [some 2]) := by decide
+
+/-! ### column- and frame-level operations of the implementation model
+
+Every theorem below compares the SAME operation of the implementation model on two columns that
+read as the same rows (and declare the same fields) but may differ in everything physical: number
+of chunks, offsets, buffers, slices.  Each is a corollary of the refinement theorem of that
+operation: both sides equal one function of the rows. -/
+
+/-- the summary observers (`list_lengths`, `flat_length`, `list_offsets`, `get_list_index`) -/
+theorem observers_layout_independent (c₁ c₂ : PCol α) (h₁ : c₁.Clean) (h₂ : c₂.Clean) (h : c₁.rows = c₂.rows) :
+    NArr.listLengths c₁ = NArr.listLengths c₂ ∧ NArr.flatLength c₁ = NArr.flatLength c₂ ∧
+    NArr.listOffsets c₁ = NArr.listOffsets c₂ ∧ NArr.getListIndex c₁ = NArr.getListIndex c₂ := by
+  rw [listLengths_refines c₁ h₁, listLengths_refines c₂ h₂, flatLength_refines c₁ h₁, flatLength_refines c₂ h₂,
+    listOffsets_refines c₁ h₁, listOffsets_refines c₂ h₂, getListIndex_refines c₁ h₁, getListIndex_refines c₂ h₂, h]
+  exact ⟨rfl, rfl, rfl, rfl⟩
+
+/-- the flat views: the flat index of a series, the flat values of a field, `to_flat()` -/
+theorem flat_views_layout_independent (index : List Label) (c₁ c₂ : PCol α) (h₁ : c₁.Clean) (h₂ : c₂.Clean)
+    (hr : c₁.rows = c₂.rows) (ht : c₁.ty = c₂.ty) (hc₁ : c₁.chunks ≠ []) (hc₂ : c₂.chunks ≠ [])
+    (hi : index.length = c₁.len) (f : String) (hf : c₁.ty.any (·.1 == f) = true) :
+    NSeries.getFlatIndex { index := index, col := c₁ } = NSeries.getFlatIndex { index := index, col := c₂ } ∧
+    NArr.flatField c₁ f = NArr.flatField c₂ f ∧
+    NSeries.toFlat { index := index, col := c₁ } none = NSeries.toFlat { index := index, col := c₂ } none := by
+  have hi₂ : index.length = c₂.len := by rw [hi, ← PCol.rows_length, ← PCol.rows_length, hr]
+  rw [getFlatIndex_refines index c₁ h₁, getFlatIndex_refines index c₂ h₂, flatField_refines c₁ h₁ f hf,
+    flatField_refines c₂ h₂ f (ht ▸ hf), toFlat_refines index c₁ h₁ hc₁ hi, toFlat_refines index c₂ h₂ hc₂ hi₂, hr]
+  refine ⟨rfl, rfl, ?_⟩
+  unfold PCol.abs
+  rw [hr, ht]
+
+/-- `__setitem__`: the rows after the assignment (or the error) are the same -/
+theorem setitem_layout_independent (c₁ c₂ : PCol α) (h₁ : c₁.WF = true) (h₂ : c₂.WF = true)
+    (a₁ : c₁.aligned) (a₂ : c₂.aligned) (hr : c₁.rows = c₂.rows) (ht : c₁.ty = c₂.ty) (k : Key) (v : SetVal α)
+    (hd : k.distinct c₁.len) :
+    (NArr.setItem c₁ k v).map PCol.rows = (NArr.setItem c₂ k v).map PCol.rows := by
+  have hl : c₁.len = c₂.len := by rw [← PCol.rows_length, ← PCol.rows_length, hr]
+  rw [setItem_refines c₁ h₁ a₁ k v hd, setItem_refines c₂ h₂ a₂ k v (hl ▸ hd), hr, ht]
+
+/-- the per-row lists of every field, column-major (what the flat view, `query`, `dropna` and
+    `sort_values` start from), depend on the rows and the declared fields only -/
+theorem colLists_layout_independent (c₁ c₂ : PCol α) (hr : c₁.rows = c₂.rows) (ht : c₁.ty = c₂.ty) :
+    colLists c₁ = colLists c₂ := by
+  unfold colLists tyOf
+  rw [hr, ht]
+
+/-- **`query` on a nested layer cannot tell two layouts apart**: two frames whose nested column
+    `nest` is stored cleanly in ANY two layouts of the same rows get, from the same condition,
+    nested columns with the same rows (and both succeed). -/
+theorem query_layout_independent (F₁ F₂ : NFrame Cell) (e : Expr) (nest : String) (c₁ c₂ : PCol Cell)
+    (hl : e.layers = [some nest])
+    (hn₁ : F₁.nestedColumns.contains nest = true) (hn₂ : F₂.nestedColumns.contains nest = true)
+    (hc₁ : F₁.nest? nest = .ok c₁) (hc₂ : F₂.nest? nest = .ok c₂) (h₁ : c₁.Clean) (h₂ : c₂.Clean)
+    (hch₁ : c₁.chunks ≠ []) (hch₂ : c₂.chunks ≠ []) (hi₁ : F₁.index.length = c₁.len) (hi₂ : F₂.index.length = c₂.len)
+    (hr : c₁.rows = c₂.rows) (ht : c₁.ty = c₂.ty) (vals : List Cell)
+    (hev : evalAll (ordFlat (colLists c₁) (c₁.rows.map Row.len)).len
+      (recordLookup (ordFlat (colLists c₁) (c₁.rows.map Row.len)) nest) e = .ok vals) :
+    ∃ col₁ col₂, F₁.query e = .ok (F₁.setCol nest (.nest col₁)) ∧ F₂.query e = .ok (F₂.setCol nest (.nest col₂)) ∧
+      col₁.rows = col₂.rows := by
+  have hcl := colLists_layout_independent c₁ c₂ hr ht
+  obtain ⟨col₁, hq₁, hrows₁, _⟩ := query_nested_refines F₁ e nest c₁ hl hn₁ hc₁ h₁ hch₁ hi₁ vals hev
+  obtain ⟨col₂, hq₂, hrows₂, _⟩ := query_nested_refines F₂ e nest c₂ hl hn₂ hc₂ h₂ hch₂ hi₂ vals (by rw [← hcl, ← hr]; exact hev)
+  refine ⟨col₁, col₂, hq₁, hq₂, ?_⟩
+  rw [hrows₁, hrows₂, hcl, hr]
+
+/-- **`sort_values` on a nested layer cannot tell two layouts apart**. -/
+theorem sort_layout_independent [Inhabited α] (lt : α → α → Bool) (isNull : α → Bool) (F₁ F₂ : NFrame α)
+    (nest : String) (c₁ c₂ : PCol α) (hc₁ : F₁.nest? nest = .ok c₁) (hc₂ : F₂.nest? nest = .ok c₂)
+    (h₁ : c₁.Clean) (h₂ : c₂.Clean) (hch₁ : c₁.chunks ≠ []) (hch₂ : c₂.chunks ≠ [])
+    (hi₁ : F₁.index.length = c₁.len) (hi₂ : F₂.index.length = c₂.len)
+    (hr : c₁.rows = c₂.rows) (ht : c₁.ty = c₂.ty) (keys : List (String × Bool))
+    (hkeys : ∀ k ∈ keys, c₁.ty.any (·.1 == k.1) = true) (naFirst : Bool)
+    (hlt : KeysOrdered lt isNull (sortKeyCols (ordFlat (colLists c₁) (c₁.rows.map Row.len)) keys)) :
+    ∃ col₁ col₂, F₁.sortNested lt isNull nest keys naFirst = .ok (F₁.setCol nest (.nest col₁)) ∧
+      F₂.sortNested lt isNull nest keys naFirst = .ok (F₂.setCol nest (.nest col₂)) ∧ col₁.rows = col₂.rows := by
+  have hcl := colLists_layout_independent c₁ c₂ hr ht
+  obtain ⟨b₁, col₁, hs₁, hrows₁, _, _, _, hb₁⟩ := sortNested_rows lt isNull F₁ nest c₁ hc₁ h₁ hch₁ hi₁ keys hkeys naFirst hlt
+  obtain ⟨b₂, col₂, hs₂, hrows₂, _, _, _, hb₂⟩ := sortNested_rows lt isNull F₂ nest c₂ hc₂ h₂ hch₂ hi₂ keys
+    (fun k hk => ht ▸ hkeys k hk) naFirst (by rw [← hcl, ← hr]; exact hlt)
+  refine ⟨col₁, col₂, hs₁, hs₂, ?_⟩
+  rw [hrows₁, hrows₂, hb₁, hb₂, hcl, hr]
+
+/-- **`dropna` on a nested layer cannot tell two layouts apart**. -/
+theorem dropna_layout_independent (isNull : α → Bool) (F₁ F₂ : NFrame α) (nest : String) (c₁ c₂ : PCol α)
+    (hc₁ : F₁.nest? nest = .ok c₁) (hc₂ : F₂.nest? nest = .ok c₂) (h₁ : c₁.Clean) (h₂ : c₂.Clean)
+    (hch₁ : c₁.chunks ≠ []) (hch₂ : c₂.chunks ≠ []) (hi₁ : F₁.index.length = c₁.len) (hi₂ : F₂.index.length = c₂.len)
+    (hr : c₁.rows = c₂.rows) (ht : c₁.ty = c₂.ty) (how : How) (thresh : Option Nat) (subset : Option (List String))
+    (hsub : ∀ fs, subset = some fs → ∀ f ∈ fs, c₁.ty.any (·.1 == f) = true) :
+    ∃ col₁ col₂, F₁.dropnaNested isNull nest how thresh subset = .ok (F₁.setCol nest (.nest col₁)) ∧
+      F₂.dropnaNested isNull nest how thresh subset = .ok (F₂.setCol nest (.nest col₂)) ∧ col₁.rows = col₂.rows := by
+  have hcl := colLists_layout_independent c₁ c₂ hr ht
+  obtain ⟨col₁, hd₁, hrows₁, _⟩ := dropnaNested_rows isNull F₁ nest c₁ hc₁ h₁ hch₁ hi₁ how thresh subset hsub
+  obtain ⟨col₂, hd₂, hrows₂, _⟩ := dropnaNested_rows isNull F₂ nest c₂ hc₂ h₂ hch₂ hi₂ how thresh subset
+    (fun fs hfs f hf => ht ▸ hsub fs hfs f hf)
+  refine ⟨col₁, col₂, hd₁, hd₂, ?_⟩
+  rw [hrows₁, hrows₂, hcl, hr]
 
 end NP.C04
